@@ -9,26 +9,31 @@ RULE = ('Hypothesis-generated sensor set-ups on a real line Source -> PartProces
         'on the dyadic grid and off it (0.1, 0.3, 1/3, 0.7), OutputPartSensor with sensing interval 0..4, data '
         'capacity in {1,2,3,7,inf}, 0-3 on-sense callbacks, attribute probe on a changing attribute and a function '
         'probe returning a list that is mutated later, a Cms with sensors added once, twice or not at all, optional '
-        'failure + restore of the processor. Oracle: k-th periodic sample at the k-fold repeated addition of the '
+        'failure + restore of the processor; the periodic sensor optionally created inside an event at t0 > 0 (its k-th sample is then due k intervals after t0) and optionally accompanied by a second, different sensor with the same user-chosen name registered with the same Cms. Oracle: k-th periodic sample at the k-fold repeated addition of the '
         'interval (same left fold), part sensor at finished parts 1, n+2, 2n+3, ...; each stored value equals the '
         'value at that moment (copy); callbacks once each in registration order with (sensor, time, values); every '
         'series including time holds exactly the most recent min(count, capacity) entries, aligned; Cms receives '
         'each measurement of each registered sensor exactly once. Non-trivial = more samples than capacity and a '
         'probed value that changed; distinct = SHA-1 of the canonical case JSON.')
 ASSUMPTIONS = ['the probed attribute changes every 0.5 time units by an event of higher priority than SENSOR',
-               'sensors are created before the first simulate (late creation is C20)']
+               'the output-part sensor is created before the first simulate']
 
 
 def cases():
-    def build(src_c, proc_c, iv, cap, n, ncb, cms, fault, T, pol, seed):
-        return {'src_c': src_c, 'proc_c': proc_c, 'iv': iv, 'cap': cap, 'n': n, 'ncb': ncb, 'cms': cms,
+    def build(src_c, proc_c, iv, cap, n, ncb, cms, fault, T, pol, seed, late, twin):
+        return {'late': late, 'twin_name': twin, 'src_c': src_c, 'proc_c': proc_c, 'iv': iv, 'cap': cap, 'n': n, 'ncb': ncb, 'cms': cms,
                 'fault': fault, 'T': T, 'tb': [pol, seed]}
     return st.builds(build, st.sampled_from([0.5, 1, 2]), st.sampled_from([0.25, 1, 1.5]),
                      st.sampled_from([0.25, 0.5, 1.25, 3, 0.1, 0.3, 1 / 3, 0.7]),
                      st.sampled_from([1, 2, 3, 7, 'inf']), st.sampled_from([0, 1, 2, 4]), st.integers(0, 3),
                      st.sampled_from([[], ['ps'], ['ps', 'ps', 'os'], ['os', 'ps'], ['os', 'os']]),
                      st.sampled_from([None, None, [4, 8], [2.5, 3]]), st.sampled_from([6, 15, 25]),
-                     st.sampled_from(['random', 'fifo', 'lifo', 'const']), st.integers(0, 10 ** 6))
+                     st.sampled_from(['random', 'fifo', 'lifo', 'const']), st.integers(0, 10 ** 6),
+                     st.sampled_from([None, None, 0.75, 2.5, 3]), st.sampled_from([None, None, 0.5, 1.5]))
+
+
+def valid(case):
+    return len(case.get('tb', [])) == 2 and case['iv'] > 0 and case['T'] > 0 and case['src_c'] > 0
 
 
 def phases(tier):
@@ -46,6 +51,10 @@ def run_case(case, ctx):
         classes.append('non-dyadic-interval')
     if case['fault']:
         classes.append('processor-failure')
+    if case.get('late'):
+        classes.append('sensor-created-while-running')
+    if case.get('twin_name'):
+        classes.append('two-sensors-same-name')
     if len(case['cms']) > len(set(case['cms'])):
         classes.append('sensor-added-twice-to-cms')
     return {'nontrivial': r['over_capacity'] and r['periodic'] >= 2, 'classes': classes,
